@@ -243,25 +243,25 @@ __CPROVER_ensures(g_hp_n == __CPROVER_old(g_hp_n) + 1 && g_hp_ret == __CPROVER_r
  * operands and the byte offset of its destination inside the destination's object. */
 #ifdef EL_GEJ_ADD_GE_VAR
 #ifdef EL_GEJ_ADD_GE_VAR_LOG
-size_t g_aj_n, g_aj_roff; secp256k1_gej g_aj_a; secp256k1_ge g_aj_b; int g_aj_seen;
-#ifdef EL_GEJ_ADD_GE_VAR_CHAIN     /* additionally: result of call number g_el_i - 1 and of the last call */
-secp256k1_gej g_aj_prev, g_aj_last;
+size_t g_aj_n, g_aj_roff; secp256k1_gej g_aj_a, g_aj_r; secp256k1_ge g_aj_b; int g_aj_seen;
+#ifdef EL_GEJ_ADD_GE_VAR_CHAIN     /* additionally: operands and result of call number g_el_i - 1, result of the last call */
+secp256k1_gej g_aj_prev, g_aj_last, g_aj_pa; secp256k1_ge g_aj_pb;
 #endif
 #endif
 static void secp256k1_gej_add_ge_var(secp256k1_gej *r, const secp256k1_gej *a, const secp256k1_ge *b, secp256k1_fe *rzr)
 __CPROVER_requires(__CPROVER_w_ok(r, sizeof(*r)) && __CPROVER_r_ok(a, sizeof(*a)) && __CPROVER_r_ok(b, sizeof(*b)) && rzr == NULL && gej_ok(a) && ge_ok(b))
 #ifdef EL_GEJ_ADD_GE_VAR_LOG
 #ifdef EL_GEJ_ADD_GE_VAR_CHAIN
-__CPROVER_assigns(*r, g_aj_n, g_aj_roff, g_aj_a, g_aj_b, g_aj_seen, g_aj_prev, g_aj_last)
+__CPROVER_assigns(*r, g_aj_n, g_aj_roff, g_aj_a, g_aj_r, g_aj_b, g_aj_seen, g_aj_prev, g_aj_last, g_aj_pa, g_aj_pb)
 __CPROVER_ensures(GEJ_EQ(g_aj_last, *r))
-__CPROVER_ensures(__CPROVER_old(g_aj_n) + 1 == g_el_i ? GEJ_EQ(g_aj_prev, *r) : GEJ_KEEP(g_aj_prev))
+__CPROVER_ensures(__CPROVER_old(g_aj_n) + 1 == g_el_i ? (GEJ_EQ(g_aj_prev, *r) && GEJ_EQ_OLD(g_aj_pa, *a) && GE_EQ_OLD(g_aj_pb, *b)) : (GEJ_KEEP(g_aj_prev) && GEJ_KEEP(g_aj_pa) && GE_KEEP(g_aj_pb)))
 #else
-__CPROVER_assigns(*r, g_aj_n, g_aj_roff, g_aj_a, g_aj_b, g_aj_seen)
+__CPROVER_assigns(*r, g_aj_n, g_aj_roff, g_aj_a, g_aj_r, g_aj_b, g_aj_seen)
 #endif
 __CPROVER_ensures(g_aj_n == __CPROVER_old(g_aj_n) + 1)
 __CPROVER_ensures(__CPROVER_old(g_aj_n) == g_el_i
-    ? (g_aj_seen == 1 && g_aj_roff == __CPROVER_POINTER_OFFSET(r) && GEJ_EQ_OLD(g_aj_a, *a) && GE_EQ_OLD(g_aj_b, *b))
-    : (g_aj_seen == __CPROVER_old(g_aj_seen) && g_aj_roff == __CPROVER_old(g_aj_roff) && GEJ_KEEP(g_aj_a) && GE_KEEP(g_aj_b)))
+    ? (g_aj_seen == 1 && g_aj_roff == __CPROVER_POINTER_OFFSET(r) && GEJ_EQ_OLD(g_aj_a, *a) && GE_EQ_OLD(g_aj_b, *b) && GEJ_EQ(g_aj_r, *r))
+    : (g_aj_seen == __CPROVER_old(g_aj_seen) && g_aj_roff == __CPROVER_old(g_aj_roff) && GEJ_KEEP(g_aj_a) && GE_KEEP(g_aj_b) && GEJ_KEEP(g_aj_r)))
 #else
 __CPROVER_assigns(*r)
 #endif
@@ -270,9 +270,19 @@ __CPROVER_ensures(gej_ok(r))
 #endif
 /* P -> H(P) * P: ORACLE (hash to scalar, ecmult); leaves the point alone or replaces it, in representation range */
 #ifdef EL_WL_TWEAK_PUBKEY
+/* EL_WL_TWEAK_LOG: input and output point of call number g_el_t (ghost fixed by the harness) */
+#ifdef EL_WL_TWEAK_LOG
+size_t g_tw_n, g_el_t; secp256k1_gej g_tw_in, g_tw_out;
+#endif
 static int secp256k1_whitelist_tweak_pubkey(const secp256k1_hash_ctx *hash_ctx, secp256k1_gej* pub_tweaked)
 __CPROVER_requires(hash_ctx != NULL && __CPROVER_rw_ok(pub_tweaked, sizeof(*pub_tweaked)) && gej_ok(pub_tweaked))
+#ifdef EL_WL_TWEAK_LOG
+__CPROVER_assigns(*pub_tweaked, g_tw_n, g_tw_in, g_tw_out)
+__CPROVER_ensures(g_tw_n == __CPROVER_old(g_tw_n) + 1)
+__CPROVER_ensures(__CPROVER_old(g_tw_n) == g_el_t ? (GEJ_EQ_OLD(g_tw_in, *pub_tweaked) && GEJ_EQ(g_tw_out, *pub_tweaked)) : (GEJ_KEEP(g_tw_in) && GEJ_KEEP(g_tw_out)))
+#else
 __CPROVER_assigns(*pub_tweaked)
+#endif
 __CPROVER_ensures((__CPROVER_return_value == 0 || __CPROVER_return_value == 1) && gej_ok(pub_tweaked))
 ;
 #endif
@@ -283,19 +293,28 @@ int g_sv_n; secp256k1_fe g_sv_t0, g_sv_t1; secp256k1_ge g_sv_r0, g_sv_r1;
 static void shallue_van_de_woestijne(secp256k1_ge* ge, const secp256k1_fe* t)
 __CPROVER_requires(__CPROVER_w_ok(ge, sizeof(*ge)) && __CPROVER_r_ok(t, sizeof(*t)) && fe_mag(t, 1))
 __CPROVER_assigns(*ge, g_sv_n, g_sv_t0, g_sv_t1, g_sv_r0, g_sv_r1)
-__CPROVER_ensures(ge_ok1(ge) && ge->infinity == 0 && g_sv_n == __CPROVER_old(g_sv_n) + 1)
+__CPROVER_ensures(fe_mag(&ge->x, 4) && fe_mag(&ge->y, 2) && ge->infinity == 0 && g_sv_n == __CPROVER_old(g_sv_n) + 1)   /* real body: x is a cmov of values of magnitude <= 4, y a negate(1) result */
 __CPROVER_ensures(__CPROVER_old(g_sv_n) == 0 ? (FE_EQ_OLD(g_sv_t0, *t) && GE_EQ(g_sv_r0, *ge)) : (FE_KEEP(g_sv_t0) && GE_KEEP(g_sv_r0)))
 __CPROVER_ensures(__CPROVER_old(g_sv_n) == 1 ? (FE_EQ_OLD(g_sv_t1, *t) && GE_EQ(g_sv_r1, *ge)) : (FE_KEEP(g_sv_t1) && GE_KEEP(g_sv_r1)))
 ;
 #endif
-/* group addition (mixed, constant time): ORACLE; call counter and the result of the last call */
+/* group additions (mixed; constant- and variable-time helper share ONE log, so the helper choice is free):
+ * ORACLE; call counter, operands and result of the first two calls, result of the last call */
 #ifdef EL_GEJ_ADD_GE
-int g_ag_n; secp256k1_gej g_ag_last;
+int g_ag_n; secp256k1_gej g_ag_last, g_ag_a0, g_ag_a1, g_ag_r0, g_ag_r1; secp256k1_ge g_ag_b0, g_ag_b1;
+#define AG_SLOT(k) __CPROVER_ensures(__CPROVER_old(g_ag_n) == k ? (GEJ_EQ_OLD(g_ag_a##k, *a) && GE_EQ_OLD(g_ag_b##k, *b) && GEJ_EQ(g_ag_r##k, *r)) : (GEJ_KEEP(g_ag_a##k) && GE_KEEP(g_ag_b##k) && GEJ_KEEP(g_ag_r##k)))
+#define AG_CONTRACT \
+__CPROVER_assigns(*r, g_ag_n, g_ag_last, g_ag_a0, g_ag_a1, g_ag_r0, g_ag_r1, g_ag_b0, g_ag_b1) \
+__CPROVER_ensures(gej_ok(r) && g_ag_n == __CPROVER_old(g_ag_n) + 1 && GEJ_EQ(g_ag_last, *r)) \
+AG_SLOT(0) AG_SLOT(1)
 static void secp256k1_gej_add_ge(secp256k1_gej *r, const secp256k1_gej *a, const secp256k1_ge *b)
 __CPROVER_requires(__CPROVER_w_ok(r, sizeof(*r)) && __CPROVER_r_ok(a, sizeof(*a)) && __CPROVER_r_ok(b, sizeof(*b)) && gej_ok(a) && ge_ok(b) && !b->infinity)
-__CPROVER_assigns(*r, g_ag_n, g_ag_last)
-__CPROVER_ensures(gej_ok(r) && g_ag_n == __CPROVER_old(g_ag_n) + 1 && GEJ_EQ(g_ag_last, *r))
-;
+AG_CONTRACT;
+#ifndef EL_GEJ_ADD_GE_VAR
+static void secp256k1_gej_add_ge_var(secp256k1_gej *r, const secp256k1_gej *a, const secp256k1_ge *b, secp256k1_fe *rzr)
+__CPROVER_requires(__CPROVER_w_ok(r, sizeof(*r)) && __CPROVER_r_ok(a, sizeof(*a)) && __CPROVER_r_ok(b, sizeof(*b)) && rzr == NULL && gej_ok(a) && ge_ok(b))
+AG_CONTRACT;
+#endif
 #endif
 
 /* -------------------------------- secp256k1_surjection_genrand (ORACLE: hash-derived scalars) ---------- */
